@@ -194,6 +194,8 @@ impl FeoxStore {
                         self.note_ttl_transition(0, ttl_expiry);
                         self.stats.record_count.fetch_add(1, Ordering::Relaxed);
                         drop(entry_guard);
+                        #[cfg(feoxdb_verif)]
+                        crate::verif::seam_after_entry_release();
 
                         if let (Some(write_buffer), Some(record)) =
                             (&self.write_buffer, buffered_record)
@@ -278,6 +280,8 @@ impl FeoxStore {
                         self.release_memory(old_size - new_size);
                     }
                     drop(entry);
+                    #[cfg(feoxdb_verif)]
+                    crate::verif::seam_after_entry_release();
 
                     if !self.memory_only {
                         if self.enable_caching {
@@ -349,6 +353,8 @@ impl FeoxStore {
                 reservation.commit();
                 self.stats.record_count.fetch_add(1, Ordering::Relaxed);
                 drop(entry_guard);
+                #[cfg(feoxdb_verif)]
+                crate::verif::seam_after_entry_release();
                 self.stats
                     .record_insert(start.elapsed().as_nanos() as u64, false);
 
@@ -580,6 +586,8 @@ impl FeoxStore {
                     self.release_memory(old_size - new_size);
                 }
                 drop(entry);
+                #[cfg(feoxdb_verif)]
+                crate::verif::seam_after_entry_release();
 
                 self.stats
                     .record_insert(start.elapsed().as_nanos() as u64, true);
